@@ -891,3 +891,103 @@ Qed.
 Definition argsort_rev (v : vec) : ivec := rev (np_arange (vlen v)).
 Lemma argsort_rev_ok : argsort_ok argsort_rev.
 Proof. intros v j. unfold argsort_rev. rewrite <- in_rev. apply argsort_id_ok. Qed.
+
+(* ------------------------------------------------------------------ normalize_with_percentile *)
+
+Lemma np_min1_embed l : np_min1 (map XFin l) = option_map XFin (fin_min l).
+Proof.
+  unfold fin_min. induction l as [|x r IH]; [reflexivity|]. cbn [map np_min1 nanmin]. rewrite IH.
+  destruct (nanmin (map Some r)); cbn [option_map]; [|reflexivity].
+  unfold xminimum, xmin2, qmin. cbn [xisnan orb xle]. destruct (Qle_bool x q); reflexivity.
+Qed.
+
+Lemma np_max1_embed l : np_max1 (map XFin l) = option_map XFin (fin_max l).
+Proof.
+  unfold fin_max. induction l as [|x r IH]; [reflexivity|]. cbn [map np_max1 nanmax]. rewrite IH.
+  destruct (nanmax (map Some r)); cbn [option_map]; [|reflexivity].
+  unfold xmaximum, xmax2, qmax. cbn [xisnan orb xle]. destruct (Qle_bool x q); reflexivity.
+Qed.
+
+Lemma clip_embed lo hi (m : list (list Q)) :
+  np_clip2 (map (map XFin) m) (XFin lo) (XFin hi) = map (map XFin) (map (map (clipq lo hi)) m).
+Proof.
+  unfold np_clip2. rewrite !map_map. apply map_ext. intro row. rewrite !map_map. apply map_ext. intro x.
+  unfold clipq, xminimum, xmaximum, xmax2, xmin2, qmin, qmax. cbn [xisnan orb xle].
+  destruct (Qle_bool x lo); cbn [xisnan orb xle]; [destruct (Qle_bool lo hi)|destruct (Qle_bool x hi)]; reflexivity.
+Qed.
+
+Lemma qeqb_diff hi lo : Qeq_bool (hi - lo) 0 = Qeq_bool hi lo.
+Proof.
+  destruct (Qeq_bool hi lo) eqn:E.
+  - apply Qeq_bool_iff in E. apply Qeq_bool_iff. lra.
+  - destruct (Qeq_bool (hi - lo) 0) eqn:E'; [|reflexivity]. apply Qeq_bool_iff in E'.
+    assert (H : (hi == lo)%Q) by lra. apply Qeq_bool_iff in H. congruence.
+Qed.
+
+Lemma mapmap_comp {A B C : Type} (f : B -> C) (g : A -> B) (m : list (list A)) :
+  map (map f) (map (map g) m) = map (map (fun x => f (g x))) m.
+Proof. rewrite map_map. apply map_ext. intro. apply map_map. Qed.
+
+Lemma Forall2_mapmap {A B C : Type} (R : B -> C -> Prop) (f : A -> B) (g : A -> C) (m : list (list A)) :
+  (forall x, R (f x) (g x)) -> Forall2 (Forall2 R) (map (map f) m) (map (map g) m).
+Proof. intro H. apply Forall2_map_same. intro row. apply Forall2_map_same. exact H. Qed.
+
+Theorem gen_normalize_eq pctl p (amb : list (list Q)) : percentile_ok pctl -> concat amb <> [] ->
+  exists r, G.normalize_with_percentile pctl (XFin p) (map (map XFin) amb) = Some r
+            /\ Forall2 (Forall2 xeq) r (map (map of_oq) (normalize_percentile true p amb)).
+Proof.
+  intros Hp Hne. unfold G.normalize_with_percentile, normalize_percentile. cbn [xsub xofz]. rewrite !Hp.
+  change (inject_Z 100) with 100%Q.
+  assert (Hs : qsort (concat amb) <> []) by (intro E; apply Hne; apply qsort_nil; exact E).
+  destruct (quantile_sorted (qsort (concat amb)) (p / 100)) as [pmin|] eqn:E1;
+    [|apply quantile_sorted_none in E1; contradiction].
+  destruct (quantile_sorted (qsort (concat amb)) ((100 - p) / 100)) as [pmax|] eqn:E2;
+    [|apply quantile_sorted_none in E2; contradiction].
+  cbn [of_oq]. rewrite clip_embed. set (cl := map (map (clipq pmin pmax)) amb).
+  unfold np_min2, np_max2, minmax_scale. rewrite <- !concat_map, np_min1_embed, np_max1_embed.
+  assert (Hcl : exists x, In x (concat cl)).
+  { destruct (concat amb) as [|x0 r0] eqn:Ec; [contradiction|].
+    assert (I0 : In x0 (concat amb)) by (rewrite Ec; left; reflexivity).
+    apply in_concat in I0. destruct I0 as (row & Hrow & Hx). exists (clipq pmin pmax x0).
+    unfold cl. apply in_concat. exists (map (clipq pmin pmax) row). split; apply in_map; assumption. }
+  destruct Hcl as (x0 & Hx0).
+  destruct (fin_min_some _ _ Hx0) as (lo & Elo). destruct (fin_max_some _ _ Hx0) as (hi & Ehi).
+  rewrite Elo, Ehi. cbn [option_map xsub xeqb xofz]. change (inject_Z 0) with 0%Q. rewrite qeqb_diff.
+  destruct (Qeq_bool hi lo) eqn:Eq; (eexists; split; [reflexivity|]); unfold m2s; rewrite !mapmap_comp;
+    apply Forall2_mapmap; intro x; cbn [xsub xdiv of_oq].
+  - unfold xofz. change (Qeq_bool (inject_Z 1) 0) with false. cbv iota. cbn [xeq]. field.
+  - rewrite qeqb_diff, Eq. apply xeq_refl.
+Qed.
+
+Lemma Forall2_In_l {A B : Type} (R : A -> B -> Prop) l l' x : Forall2 R l l' -> In x l -> exists y, In y l' /\ R x y.
+Proof.
+  induction 1 as [|a b l l' Hab _ IH]; intro H; [destruct H|]. destruct H as [<-|H].
+  - exists b. split; [left; reflexivity|exact Hab].
+  - destruct (IH H) as (y & Hy & Ry). exists y. split; [right; exact Hy|exact Ry].
+Qed.
+
+(* the generated normalisation returns finite values of [0, 1] for EVERY non-empty ambiguity map *)
+Theorem gen_normalize_in01 pctl p (amb : list (list Q)) : percentile_ok pctl -> concat amb <> [] ->
+  exists r, G.normalize_with_percentile pctl (XFin p) (map (map XFin) amb) = Some r /\
+    forall row y, In row r -> In y row -> exists q, y = XFin q /\ (0 <= q <= 1)%Q.
+Proof.
+  intros Hp Hne. destruct (gen_normalize_eq pctl p amb Hp Hne) as (r & Er & HF). exists r. split; [exact Er|].
+  intros row y Hrow Hy.
+  pose proof (normalize_percentile_in01 true p amb (or_introl eq_refl)) as H01.
+  destruct (Forall2_In_l _ _ _ _ HF Hrow) as (row' & Hrow' & HF').
+  destruct (Forall2_In_l _ _ _ _ HF' Hy) as (y' & Hy' & Hxy).
+  destruct (in_mapmap _ _ _ _ Hrow' Hy') as (r0 & o & Hr0 & Ho & ->).
+  destruct (H01 r0 o Hr0 Ho) as (q & -> & Hq). cbn [of_oq] in Hxy.
+  apply xeq_fin_r in Hxy. destruct Hxy as (q' & -> & Hq'). exists q'. split; [reflexivity|]. rewrite Hq'. exact Hq.
+Qed.
+
+(* the contract asked of np.percentile is satisfiable: linear interpolation on the sorted finite entries *)
+Fixpoint fins (l : vec) : list Q :=
+  match l with [] => [] | XFin q :: r => q :: fins r | _ :: r => fins r end.
+Definition pctl_lin (m : mat2) (q : xf) : xf :=
+  match q with XFin q' => of_oq (quantile_sorted (qsort (fins (concat m))) (q' / 100)) | _ => XNaN end.
+Lemma pctl_lin_ok : percentile_ok pctl_lin.
+Proof.
+  intros amb q. unfold pctl_lin. f_equal. f_equal. f_equal. rewrite <- concat_map.
+  induction (concat amb) as [|x r IH]; [reflexivity|]. cbn [map fins]. rewrite IH. reflexivity.
+Qed.
